@@ -226,6 +226,9 @@ func runC09(c Case, m *Model) (v Verdict) {
 		judgeFrag(b, cutsString(randomCuts(r, n)), r.Bool(), m, &v)
 	}
 	judgeFrag(b, "-", true, m, &v)
+	if msg := otherSources(b, readClass(b)); msg != "" {
+		v.Oracle = append(v.Oracle, msg+" :: "+short(hx(b)))
+	}
 	return
 }
 
